@@ -226,6 +226,8 @@ OP = st.one_of(
     st.tuples(st.just("tl_same"), O, st.sampled_from("ab")), st.tuples(st.just("tl_same"), O, st.sampled_from("ab")),
     st.tuples(st.just("tl_append"), O, st.sampled_from("ab"), P), st.tuples(st.just("tl_pop"), O, st.sampled_from("ab")),
     st.tuples(st.just("read_defaults"), O),
+    # `del` of a link that holds a default OBJECT: the fresh default appears, the old one is gone; then the link is cleared
+    st.tuples(st.just("del_default_link"), O),
     st.tuples(st.just("add_trait"), O, st.sampled_from(["extra", "extra_meta", "xchild", "xmchild", "xmchild"]), P),
 ).map(list)
 
@@ -368,6 +370,30 @@ def run(case, ctx):
                 del events[:]
                 probe(op)
                 continue
+            if k == "del_default_link":
+                if not isinstance(n.__dict__.get("mdef"), Node):
+                    continue
+                old_def = n.__dict__["mdef"]
+                del n.mdef
+                new_def = n.mdef
+                new_def.__dict__["_owner"] = n._nid
+                interesting = True
+                ctx.label("default-link-deleted")
+                extra_leaves = [old_def, new_def]
+                r = Reach(root, paths)
+                for phase in ("after del", "after clearing the link"):
+                    for leaf in extra_leaves:
+                        del events[:]
+                        leaf.value += 1
+                        exp = 1 if r.notify.get(("t", id(leaf), "value")) else 0
+                        if len(events) != exp:
+                            # F48: the delete notification AND the materialisation of the new default both hook it
+                            ctx.fail("probe/%s/deleted-default-link" % ("missed" if exp else "detached-notified"),
+                                     "%r: %s of %r.mdef, changing %r.value called the handler %d time(s), expected %d"
+                                     % (text, phase, n, leaf, len(events), exp))
+                    n.mdef = None
+                    r = Reach(root, paths)
+                break          # (histories are cut here: whatever F48 left behind would only blur later steps)
             if k == "add_trait":
                 name = op[2]
                 if n.trait(name) is not None and name in n.__dict__.get("_added", ()):
